@@ -304,10 +304,11 @@ class Session:
         head = f"/-- {doc} -/\ndef {lean}" + ("".join(" " + b for b in binders)) + f" : {ret} :="
         return head + "\n  " + X.wrap(body) + "\n"
 
-    def const(self, rel, header, name, lean, owner=None, tier=1):
-        """`const NAME: T = expr;` inside `header` (an impl or a fn); registered under `owner` (a type) or the file"""
+    def const(self, rel, header, name, lean, owner=None, tier=1, in_fn=None):
+        """`const NAME: T = expr;` inside `header` (an impl, or with in_fn a fn body); registered under `owner`
+        (a type) or the file"""
         def go():
-            c = self.source(rel).const(header, name)
+            c = self.source(rel).const(header, name, in_fn)
             lo = self.lower(rel, owner, c["what"])
             ty = lo.resolve_type(c["type"])
             r = lo.coerce(lo.expr(c["expr"], {}, ty), ty)
@@ -357,6 +358,57 @@ class Session:
             self.emit(tier, self.def_text(lean, [], lt, r.text, f"generated from {what}"))
             self.manifest.append((what, f"K.Gen.{lean}", "constant"))
         self.guarded(f"{rel}::{header}::{fn} {pick}", go)
+
+    def default_arg(self, rel, header, fn, field, ty, lean, callee="Parameter::new", argi=1, count=1, tier=1,
+                    owner=None):
+        """argument `argi` of `field: callee(…)` in the body of `fn` (e.g. the default raw value a `Parameter`
+        takes until a modulator-linked value is first read); `count` occurrences, which must all be equal"""
+        def go():
+            calls, what = self.source(rel).field_call(header, fn, field, callee)
+            if len(calls) != count:
+                raise X.XlateError(f"{what}: found {len(calls)} occurrences, expected {count}")
+            lo = self.lower(rel, owner, what)
+            texts = set()
+            for c in calls:
+                args = c[2]
+                if argi >= len(args):
+                    raise X.XlateError(f"{what}: no argument {argi}")
+                r = lo.coerce(lo.expr(args[argi], {}, ty), ty)
+                texts.add(r.text)
+            if len(texts) != 1:
+                raise X.XlateError(f"{what}: the occurrences disagree: {sorted(texts)}")
+            self.emit(tier, self.def_text(lean, [], lo.lt(ty), texts.pop(), f"generated from {what} (argument {argi})"))
+            self.manifest.append((what, f"K.Gen.{lean}", "constant"))
+        self.guarded(f"{rel}::{header}::{fn} {field}: {callee}", go)
+
+    def snippet(self, rel, header, fn, first, last, inputs, outputs, lean, ret, tier=1):
+        """a run of `let` statements inside an otherwise imperative fn, as a function of the named inputs
+        returning the anonymous-constructor tuple of `outputs` (Lean type `ret`)"""
+        def go():
+            blk, what = self.source(rel).let_range(header, fn, first, last)
+            lo = self.lower(rel, None, what)
+            env, binders = {}, []
+            for n, t in inputs:
+                env[n] = (lo.lname(n), t)
+                binders.append(f"({lo.lname(n)} : {lo.lt(t)})")
+            tail = ("struct", ["__Out"], [(o, ("path", [o])) for o in outputs], None)
+            self.w.structs["__Out"] = {"lean": ret, "fields": {}, "order": list(outputs), "dropped": set()}
+            out_types = {}
+
+            class _L(X.Lower):
+                pass
+            # outputs are read back from the environment after the lets: translate the block with a tail that
+            # mentions every output, typing each by its own binding
+            def struct_lit(e, env2, expect):
+                rs = [lo.expr(("path", [o]), env2, None) for o in outputs]
+                return X.R("⟨" + ", ".join(x.text for x in rs) + "⟩", "__Out", atomic=True)
+            lo.struct_lit = struct_lit
+            body = lo.block(("block", blk[1], tail), env, "__Out", tail=True)
+            del self.w.structs["__Out"]
+            self.emit(tier, self.def_text(lean, binders, ret, body.text,
+                                          f"generated from {what}: inputs {[n for n, _ in inputs]}, outputs {outputs}"))
+            self.manifest.append((what, f"K.Gen.{lean}", "let-range"))
+        self.guarded(f"{rel}::{header}::{fn} let {first}..{last}", go)
 
     # ---- functions ----------------------------------------------------------------------------
     def fn(self, rel, header, name, lean, self_type=None, op=None, unop=None, trait=None, flatten_self=None,
@@ -442,10 +494,12 @@ def translate(S):
              {"input_range.0": ("in0", "f64"), "input_range.1": ("in1", "f64"),
               "output_range.0": ("out0", "T"), "output_range.1": ("out1", "T"), "easing": ("easing", "Easing")})
     # -- enum shapes only (hand types live later in the import graph, or carry payloads modelled differently)
-    S.enum("sound.rs", "PlaybackState", use_shape=True)
-    S.enum("effect/distortion.rs", "DistortionKind")
-    S.enum("effect/filter.rs", "FilterMode")
-    S.enum("effect/eq_filter.rs", "EqFilterKind")
+    S.enum("sound.rs", "PlaybackState", lean="PlaybackState", head="PlaybackState")
+    S.enum("effect/distortion.rs", "DistortionKind", lean="DistortionKind", head="DistortionKind")
+    S.enum("effect/filter.rs", "FilterMode", lean="FilterMode", head="FilterMode")
+    S.enum("effect/eq_filter.rs", "EqFilterKind", lean="EqFilterKind", head="EqFilterKind")
+    S.struct("effect/eq_filter.rs", "Coefficients", "EqCoefs α",
+             {f: (f, "f64") for f in ("a1", "a2", "a3", "m0", "m1", "m2")})
     S.enum("start_time.rs", "StartTime")
     S.enum("sound.rs", "EndPosition")
 
@@ -511,8 +565,71 @@ def translate(S):
     # -- LFO
     S.fn("modulator/lfo.rs", "impl Waveform", "value", "waveformValue", self_type="Waveform")
 
-    # -- playback state (over the generated tag type: the hand type lives in Model/Psm.lean)
-    S.fn("sound.rs", "impl PlaybackState", "is_advancing", "playbackStateIsAdvancing", self_type="PlaybackState", tier=0)
+    S.value_in_fn("modulator/lfo/builder.rs", "impl Default for LfoBuilder", "default", [("field", "waveform")],
+                  "Waveform", "lfoDefaultWaveform")
+    for field in ("frequency", "amplitude", "offset"):
+        S.value_in_fn("modulator/lfo/builder.rs", "impl Default for LfoBuilder", "default",
+                      [("field", field), ("arg", "Value::Fixed", 0)], "f64", "lfoBuilderDefault" + field.capitalize())
+        S.default_arg("modulator/lfo.rs", "impl Lfo", "new", field, "f64", "lfoDefault" + field.capitalize())
+    S.value_in_fn("modulator/lfo/builder.rs", "impl Default for LfoBuilder", "default", [("field", "starting_phase")],
+                  "f64", "lfoBuilderDefaultStartingPhase")
+
+    # -- playback state
+    S.fn("sound.rs", "impl PlaybackState", "is_advancing", "playbackStateIsAdvancing", self_type="PlaybackState")
+
+    # -- spatial tracks
+    S.const("track/sub.rs", None, "EAR_DISTANCE", "earDistance", in_fn="listener_ear_positions")
+    S.const("track/sub.rs", None, "EAR_ANGLE_FROM_HEAD", "earAngleFromHead", in_fn="listener_ear_directions")
+    S.default_arg("track/sub/spatial_builder.rs", "impl SpatialTrackBuilder", "build", "spatialization_strength",
+                  "f32", "spatialDefaultSpatializationStrength")
+
+    # -- sizes and capacities
+    for field in ("sub_track_capacity", "send_track_capacity", "clock_capacity", "modulator_capacity",
+                  "listener_capacity"):
+        S.value_in_fn("manager/settings.rs", "impl Default for Capacities", "default", [("field", field)], "usize",
+                      "default" + "".join(w.capitalize() for w in field.split("_")), tier=0)
+    S.value_in_fn("manager/settings.rs", "impl<B: Backend> Default for AudioManagerSettings<B>", "default",
+                  [("field", "internal_buffer_size")], "usize", "defaultInternalBufferSize", tier=0)
+    S.const("sound/streaming/sound/decode_scheduler.rs", None, "BUFFER_SIZE", "streamingBufferSize", tier=0)
+    S.const("sound/streaming/data.rs", None, "ERROR_BUFFER_CAPACITY", "streamingErrorBufferCapacity", tier=0)
+    S.nat_const("sound/static_sound/sound/resampler.rs", r"frames: \[RecentFrame; (\d+)\],",
+                "the resampler window `frames: [RecentFrame; N]`", "resamplerWindow",
+                "sound/static_sound/sound/resampler.rs::Resampler: `frames: [RecentFrame; N]`")
+
+    # -- effects: filter
+    S.default_arg("effect/filter.rs", "impl Filter", "new", "cutoff", "f64", "filterDefaultCutoff")
+    S.default_arg("effect/filter.rs", "impl Filter", "new", "resonance", "f64", "filterDefaultResonance")
+    S.default_arg("effect/filter.rs", "impl Filter", "new", "mix", "Mix", "filterDefaultMix")
+    S.snippet("effect/filter.rs", "impl Effect for Filter", "process", "sample_rate", "a3",
+              [("cutoff", "f64"), ("resonance", "f64"), ("dt", "f64")], ["k", "a1", "a2", "a3"],
+              "filterCoefs", "FilterCoefs α")
+    # -- effects: EQ filter
+    S.const("effect/eq_filter.rs", None, "MIN_Q", "eqFilterMinQ")
+    S.default_arg("effect/eq_filter.rs", "impl EqFilter", "new", "frequency", "f64", "eqFilterDefaultFrequency")
+    S.default_arg("effect/eq_filter.rs", "impl EqFilter", "new", "gain", "Decibels", "eqFilterDefaultGain")
+    S.default_arg("effect/eq_filter.rs", "impl EqFilter", "new", "q", "f64", "eqFilterDefaultQ")
+    S.fn("effect/eq_filter.rs", "impl Coefficients", "calculate", "eqCoefficientsCalculate", self_type="Coefficients")
+    # -- effects: compressor, distortion, volume / panning control
+    for name, lean in (("DEFAULT_THRESHOLD", "compressorDefaultThreshold"), ("DEFAULT_RATIO", "compressorDefaultRatio"),
+                       ("DEFAULT_ATTACK_DURATION", "compressorDefaultAttackNs"),
+                       ("DEFAULT_RELEASE_DURATION", "compressorDefaultReleaseNs"),
+                       ("DEFAULT_MAKEUP_GAIN", "compressorDefaultMakeupGain"), ("DEFAULT_MIX", "compressorDefaultMix")):
+        S.const("effect/compressor/builder.rs", "impl CompressorBuilder", name, lean, owner="CompressorBuilder")
+    S.value_in_fn("effect/distortion.rs", "impl Default for DistortionKind", "default", [], "DistortionKind",
+                  "distortionDefaultKind", owner="DistortionKind")
+    S.value_in_fn("effect/distortion/builder.rs", "impl Default for DistortionBuilder", "default",
+                  [("field", "drive"), ("arg", "Value::Fixed", 0)], "Decibels", "distortionDefaultDrive")
+    S.value_in_fn("effect/distortion/builder.rs", "impl Default for DistortionBuilder", "default",
+                  [("field", "mix"), ("arg", "Value::Fixed", 0)], "Mix", "distortionDefaultMix")
+    S.default_arg("effect/volume_control.rs", "impl VolumeControl", "new", "volume", "Decibels", "volumeControlDefault")
+    S.default_arg("effect/panning_control.rs", "impl PanningControl", "new", "panning", "Panning", "panningControlDefault")
+    # -- sounds: default raw values of the three parameters
+    for rel, hdr, pre in (("sound/static_sound/sound.rs", "impl StaticSound", "staticSound"),
+                          ("sound/streaming/sound.rs", "impl StreamingSound", "streamingSound")):
+        S.default_arg(rel, hdr, "new", "volume", "Decibels", pre + "DefaultVolume")
+        S.default_arg(rel, hdr, "new", "playback_rate", "PlaybackRate", pre + "DefaultPlaybackRate")
+        S.default_arg(rel, hdr, "new", "panning", "Panning", pre + "DefaultPanning")
+    S.default_arg("clock.rs", "impl Clock", "new", "speed", "ClockSpeed", "clockDefaultSpeed", count=1)
 
 
 def render_manifest(S):
